@@ -73,6 +73,15 @@ func c10FilterTables(repo string, o *out) error {
 		return err
 	}
 	fmt.Fprintf(&o.sb, "Definition src_NewSpecialUseFilter : string :=\n  %s.\n", goast.Q(f.Src(fd.Body)))
+	po, err := c10Load(repo, "server/config/persist_options.go")
+	if err != nil {
+		return err
+	}
+	clp, err := po.Func("PersistOptions", "CheckLabelProperty")
+	if err != nil {
+		return err
+	}
+	fmt.Fprintf(&o.sb, "Definition src_CheckLabelProperty : string := (* config/persist_options.go: spec = lib/C10_Cluster.check_label_property *)\n  %s.\n", goast.Q(po.Src(clp.Body)))
 	for _, fn := range []string{"DistinctScore"} {
 		fd, err := sf.Func("", fn)
 		if err != nil {
